@@ -24,7 +24,7 @@ Rendering conventions (helpers live in builtins under the reserved prefix `_v`):
 import random
 
 NAMES = ['a', 'b', 'c']
-KINDS = [1, 2]
+KINDS = [1, 2, 3]
 
 
 # ---------------------------------------------------------------------------
@@ -142,8 +142,8 @@ class Gen(object):
     def try_stmt(self, d, inloop):
         body = self.block(d - 1, inloop)
         handlers = []
-        for _ in range(self.rng.randint(0, 2)):
-            kinds = self.rng.choice([[], [1], [2], [1, 2]])
+        for _ in range(self.rng.choice([0, 1, 1, 2, 2, 3])):
+            kinds = self.rng.choice([[], [1], [2], [3], [1, 2], [2, 3], [1], [2]])
             nm = self.rng.choice((self.hnames if self.c03 else self.names) + ['', ''])
             handlers.append({'kinds': kinds, 'name': nm, 'site': 0, 'body': self.block(d - 1, inloop, 1, 2)})
         if self.c02 or self.c03:
@@ -159,7 +159,7 @@ class Gen(object):
                 caught = sorted(seen)
                 body = [{'k': 'mayraise', 'kinds': caught}] + body + [{'k': 'mayraise', 'kinds': caught}]
         final = self.block(d - 1, inloop, 1, 2) if (not handlers or self.rng.random() < 0.5) else []
-        orelse = self.block(d - 1, inloop, 1, 2) if (handlers and self.rng.random() < 0.4) else []
+        orelse = self.block(d - 1, inloop, 1, 2) if (handlers and self.rng.random() < 0.5) else []
         return {'k': 'try', 'body': body, 'handlers': handlers, 'orelse': orelse, 'final': final}
 
     def program(self):
@@ -172,6 +172,8 @@ class Gen(object):
         body += self.block(self.depth, False, 2, 4)
         if self.single:
             inject_single(body, self.rng)
+        if getattr(self, 'multi', False):
+            inject_multiway(body, self.rng)
         return body
 
 
@@ -224,6 +226,33 @@ def inject_single(body, rng, name='z'):
         put_last(b, gg)
     if rng.random() < 0.5 and target is not body:
         put_last(target, g)
+    return body
+
+
+def inject_multiway(body, rng, name='y'):
+    """append a join with three or more predecessors (a try with several handlers and an else clause, or an if / elif chain)
+    whose clauses bind `name` independently, and read it afterwards: the merge of more than two tables is where a name
+    missing from exactly one (middle) predecessor shows"""
+    def bind():
+        return {'k': 'assign', 'targets': [('n', name, 0)], 'value': []}
+
+    def clause():
+        return [bind()] if rng.random() < 0.55 else [{'k': 'pass'}]
+    read = {'k': 'expr', 'value': [('r', name, 0)]}
+    if rng.random() < 0.6:
+        kinds = rng.sample(KINDS, rng.randint(2, 3))
+        handlers = [{'kinds': [k], 'name': '', 'site': 0, 'body': clause()} for k in kinds]
+        tb = [{'k': 'mayraise', 'kinds': sorted(kinds)}] + clause() + [{'k': 'mayraise', 'kinds': sorted(kinds)}]
+        st = {'k': 'try', 'body': tb, 'handlers': handlers, 'orelse': clause() if rng.random() < 0.7 else [],
+              'final': [dict(read)] if rng.random() < 0.3 else []}
+    else:
+        st = {'k': 'if', 'test': [], 'body': clause(), 'orelse': [
+            {'k': 'if', 'test': [], 'body': clause(), 'orelse': [
+                {'k': 'if', 'test': [], 'body': clause(), 'orelse': clause() if rng.random() < 0.6 else []}]}]}
+    if rng.random() < 0.3:
+        body.append(bind())
+    body.append(st)
+    body.append(read)
     return body
 
 
@@ -629,7 +658,7 @@ class _VEB(Exception):
     pass
 
 
-VE = {1: type('_VE1', (_VEB,), {}), 2: type('_VE2', (_VEB,), {})}
+VE = {1: type('_VE1', (_VEB,), {}), 2: type('_VE2', (_VEB,), {}), 3: type('_VE3', (_VEB,), {})}
 
 
 class Token(object):
